@@ -98,6 +98,7 @@ theorem sub_one_num (cnt : Val) (q : Rat) (fl : Bool) (h : cnt.asNum = some (q, 
 
 /-! ## loop frames -/
 
+variable {V : String → Prop}
 variable {img : Image} {K : Ctx} {stk : Stk} {fr : List Frame} {ev : List Val} {un : List Val} {σ : S} {s : State}
   {pc : Nat}
 
